@@ -45,6 +45,7 @@ def run(P, rep, tier):
     rep.assumptions = ["a non-empty file list is passed when a list is given", "pathlib glob returns file names of the directory", "pydantic .json() without indent emits no newline"]
     ctx = Ctx(P)
     rep.attempt(r1_sort_first, P, rep, ctx)
+    rep.attempt(r1_paths_as_given, P, rep, ctx)
     rep.attempt(r2_mode_dispatch, P, rep, ctx)
     rep.attempt(r3_name_language, P, rep, ctx)
     rep.attempt(r4_close_discard, P, rep, ctx)
@@ -67,6 +68,27 @@ def run(P, rep, tier):
 
 
 # ------------------------------------------------------------------------------------------- R1
+CANONICALISERS = {"resolve", "realpath", "absolute", "abspath", "readlink", "expanduser", "normpath", "samefile"}
+
+
+def r1_paths_as_given(P, rep, ctx):
+    """The record works with the container paths as the caller (or the directory listing) spelled them: canonicalising
+    them (resolve / realpath / ..) makes 'the record next to this path' mean the link target's directory, so patches created
+    through a symlinked container are not found when the record is reopened by name."""
+    n = 0
+    for fi in P.functions.values():
+        if fi.module.name not in ("ih5.record", "ih5.manifest", "ih5.overlay", "ih5.skeleton") or not isinstance(fi.node, (ast.FunctionDef, ast.AsyncFunctionDef)):
+            continue
+        n += 1
+        for c in local_calls(fi.node):
+            nm = call_attr(c) or (c.func.id if isinstance(c.func, ast.Name) else None)
+            if nm in CANONICALISERS:
+                rep.fail("C03.R1", fi.qual, f"path canonicalised: {norm(c)[:70]}", f"{fi.qual} canonicalises a container path ({norm(c)[:70]}): file names derived from it (next patch, manifest) no longer lie next to the path the record was opened by", fi.loc(c))
+    rep.ok("C03.R1", "ih5", f"{n} functions of the record layer scanned for path canonicalisation", P.module(R).relpath)
+    if n < 60:
+        raise AnalysisError(f"C03.R1: only {n} functions scanned")
+
+
 def r1_sort_first(P, rep, ctx):
     fi = P.func(f"{REC}._open")
     g = ctx.cfg(fi)
